@@ -45,6 +45,9 @@ def codecStep (args : List String) : String :=
     -- one exchange over the HTTP transport: the request and the reply each arrive whole, whatever their length and
     -- whether or not net/http announced it (chunked bodies); a side that configured a size limit refuses what exceeds it
     let geti := fun k => (findStr k rest).bind (·.toNat?)
+    -- the connection is lost after the server handled the message: the call fails, and the one message that was
+    -- written has been read exactly once (no silent re-send)
+    if geti "drop" == some 1 then "err handled=1" else
     match geti "maxs", geti "maxc", geti "reqlen", geti "resplen" with
     | some ms, some mc, some rl, some pl =>
       if !(ms == 0 || rl ≤ ms) then "err"
